@@ -134,7 +134,9 @@ Theorem guard_handler_escapes_to_guard_context : forall s0 c v k gk only tag e o
   ctl s' = CRet (VClauseThunk only tag e v (length (conts s0))) /\ kont s' = kk /\ dk s' = kont_point kk /\
   params s' = point_params (hp s') (kont_point kk) /\
   nth_error (conts s') (length (conts s0)) =
-    Some (FCallThunk :: FHandlerDone c :: FWindExit (length (hp s0)) (dk s0) [ASetParams (params s0)] :: k, length (hp s0)).
+    Some (FCallThunk :: FHandlerDone c :: FWindExit (length (hp s0)) (dk s0) [ASetParams (params s0)] :: k, length (hp s0)) /\
+  hp s' = hp s0 ++ [mkP (depth (hp s0) (dk s0) + 1) [ASetParams (BHandler orig :: params s0)] [ASetParams (params s0)] (dk s0)] /\
+  st s' = Running.
 Proof. exact guard_handler_escapes_to_guard_context_lemma. Qed.
 Print Assumptions guard_handler_escapes_to_guard_context.
 
@@ -145,3 +147,46 @@ Theorem guard_installs : forall s only tag h body, st s = Running -> ctl s = CEv
   ctl s' = CEval body.
 Proof. exact guard_installs_lemma. Qed.
 Print Assumptions guard_installs.
+
+(** guard, no clause matches: the condition is raised again with raise-continuable INSIDE the handler call at the original
+    raise point (current handler = the handler outside the guard, parameters of the raise point, raise point's continuation
+    underneath) — the winds between the guard and the raise point are re-entered by the throw to handler-k *)
+Theorem guard_reraise_in_raise_context : forall s0 c v k gk only tag e orig kg pt,
+  reachable s0 -> st s0 = Running -> ctl s0 = CRet (VNat v) -> kont s0 = FRaise c :: k ->
+  lookup_handler (params s0) = Some (HC (HGuard gk only tag e) orig) ->
+  nth_error (conts s0) gk = Some (FCallThunk :: kg, pt) ->
+  clause_test only v = false ->
+  let kin := FHandlerDone c :: FWindExit (length (hp s0)) (dk s0) [ASetParams (params s0)] :: k in
+  let s2 := step_impl (step_impl s0) in
+  ctl s2 = CRet (VReraiseThunk v) /\ kont s2 = FCallThunk :: kin /\ dk s2 = length (hp s0) /\
+  params s2 = BHandler orig :: params s0 /\ lookup_handler (params s2) = orig /\
+  step_impl s2 = do_raise travel_to_point s2 kin true v.
+Proof. exact guard_reraise_in_raise_context_lemma. Qed.
+Print Assumptions guard_reraise_in_raise_context.
+
+(** guard, a clause matches: its body runs on the guard form's continuation in the guard form's extent; the only before/after
+    thunks run on the way are those of the R7RS script from inside the handler call to guard-k *)
+Theorem guard_clause_runs_in_guard_context : forall s0 c v k gk only tag e orig kg pt,
+  reachable s0 -> st s0 = Running -> ctl s0 = CRet (VNat v) -> kont s0 = FRaise c :: k ->
+  lookup_handler (params s0) = Some (HC (HGuard gk only tag e) orig) ->
+  nth_error (conts s0) gk = Some (FCallThunk :: kg, pt) ->
+  clause_test only v = true ->
+  let s1 := step_impl s0 in let s2 := step_impl s1 in
+  ctl s2 = CEval e /\ kont s2 = kg /\ dk s2 = kont_point kg /\
+  params s2 = point_params (hp s2) (kont_point kg) /\ out s2 = (6, v) :: (7, tag) :: out s1 /\
+  out s1 = snd (run_wevs (hp s1) (frames_script (FCallThunk :: FHandlerDone c :: FWindExit (length (hp s0)) (dk s0) [ASetParams (params s0)] :: k) (FCallThunk :: kg))
+                         (BHandler orig :: params s0) (out s0)).
+Proof. exact guard_clause_runs_in_guard_context_lemma. Qed.
+Print Assumptions guard_clause_runs_in_guard_context.
+
+Theorem dynamic_wind_normal_entry_exit :
+  (forall s i body, st s = Running -> ctl s = CEval (DynWind i body) ->
+     let s' := step_impl s in
+     ctl s' = CEval body /\ out s' = (1, i) :: out s /\ dk s' = length (hp s) /\ params s' = params s /\
+     kont s' = FWindExit (length (hp s)) (dk s) [AEmit 2 i] :: kont s /\
+     hp s' = hp s ++ [mkP (depth (hp s) (dk s) + 1) [AEmit 1 i] [AEmit 2 i] (dk s)]) /\
+  (forall s v np here i k, st s = Running -> ctl s = CRet v -> kont s = FWindExit np here [AEmit 2 i] :: k ->
+     let s' := step_impl s in
+     ctl s' = CRet v /\ out s' = (2, i) :: out s /\ dk s' = here /\ params s' = params s /\ kont s' = k /\ hp s' = hp s).
+Proof. exact dynamic_wind_normal_entry_exit_lemma. Qed.
+Print Assumptions dynamic_wind_normal_entry_exit.
